@@ -294,12 +294,31 @@ def _work(job):
 
 
 def _isolated_work(job):
-    r = I.isolated(_work, job, timeout=900)
+    n, src, path, specs = job
+    specs, dropped = I.usable_specs(src, path, specs)
+    stats = {"inconclusive:" + k: v for k, v in dropped.items()}
+    r = I.isolated(_work, (n, src, path, specs), timeout=900)
     if "crash" in r:
-        sig = "harness:timeout" if r["crash"] == "SIGALRM" else "crash:" + r["crash"]
-        return {"n": job[0], "cases": [], "fails": [[sig, "child died", None]], "stats": {}}
+        # the plain program runs normally on these inputs (usable_specs), so the interpreter died because of
+        # the instrumented code; find the input
+        hit = None
+        for k, s in enumerate(specs):
+            if "crash" in I.isolated(_work, (n, src, path, [s]), timeout=300):
+                hit = k
+                break
+        if hit is None and specs:
+            stats["inconclusive:crash-not-reproduced"] = 1
+            return {"n": n, "cases": [], "fails": [], "stats": stats, "specs": specs}
+        return {"n": n, "cases": [], "fails": [["crash:" + r["crash"], "interpreter died when running the instrumented code", hit]],
+                "stats": stats, "specs": specs}
+    if "inconclusive" in r:
+        stats["inconclusive:" + r["inconclusive"]] = stats.get("inconclusive:" + r["inconclusive"], 0) + 1
+        return {"n": n, "cases": [], "fails": [], "stats": stats, "specs": specs}
     if "harness_error" in r:
-        return {"n": job[0], "cases": [], "fails": [["harness:" + r["harness_error"].split(":")[0], r["harness_error"] + r.get("tb", ""), None]], "stats": {}}
+        return {"n": n, "cases": [], "fails": [["harness:" + r["harness_error"].split(":")[0], r["harness_error"] + r.get("tb", ""), None]],
+                "stats": stats, "specs": specs}
+    r["stats"].update(stats)
+    r["specs"] = specs
     return r
 
 
@@ -336,15 +355,12 @@ def run(ctx: vlib.Ctx):
         for k, v in r["stats"].items():
             ctx.count("S:" + k, v)
         for sig, msg, k in r["fails"]:
-            if sig == "harness:timeout":
-                ctx.count("S:timeout-not-judged")
-                continue
             n_or += 1
             if sig in seen:
                 continue
             seen.add(sig)
-            src, specs = progs[r["n"]]
-            ctx.fail(sig, msg, {"program": src, "input": specs[k] if k is not None else None})
+            src, specs = progs[r["n"]][0], r.get("specs", progs[r["n"]][1])
+            ctx.fail(sig, msg, {"program": src, "input": specs[k] if k is not None and k < len(specs) else None})
     ctx.sample({"program": progs[-1][0][len(G.PRELUDE):][:500], "cfg": cases[-1][:600] if cases else None})
     ctx.leg("S", failures=n_or, programs=len(progs))
     bad = ctx.run_cases("C03_cfgs", "From Verif Require Import Models.C03.", "C03.case", "C03.check_case", cases, shard=150)
